@@ -980,7 +980,7 @@ pub static C16: PropDef = PropDef {
 	gen: gen16,
 	eval: eval16,
 	shrink,
-	rule: "run = one spawn whose fd 1 accepts k bytes and then fails every write with EPIPE (consumer gone), ENOSPC (full device) or EIO; k enumerates, over consecutive run indices of one drawn workload, 0..=64, every byte around 1024/4096/8192/16384/65536 (+-2) and sampled positions up to the output length (64 KiB .. several 100 KiB); all targets, file and stdin input, one and many inputs (so the error is met in write, write_all, write_fmt and the per-input flush), short-write schedules. Fidelity runs (thorough): a real pipe whose reader takes k bytes and closes, and /dev/full. Non-trivial: the fault fired (xt attempted a write after k accepted bytes). Distinct = distinct (argv, contents, k, errno, plan).",
+	rule: "run = one spawn whose fd 1 accepts k bytes and then fails every write with EPIPE (consumer gone), ENOSPC (full device) or EIO; k enumerates, over consecutive run indices of one drawn workload, 0..=64, every byte around 1024/4096/8192/16384/65536 (+-2) and sampled positions up to the output length (64 KiB .. several 100 KiB); all targets, file and stdin input, one and many inputs (so the error is met in write, write_all, write_fmt and the per-input flush), short-write schedules. Every 25th run index is a fidelity run: a real pipe whose reader takes k bytes and closes, or /dev/full. Non-trivial: the fault fired (xt attempted a write after k accepted bytes). Distinct = distinct (argv, contents, k, errno, plan).",
 	real: PROC_REAL,
 	stub: PROC_STUB,
 	assumptions: &["the interposer returns the errno the kernel would return; SIGPIPE itself is not delivered by the interposer (Rust ignores SIGPIPE at startup, so the real kernel behaviour is the EPIPE return that the interposer reproduces)", "expected bytes: the library's output for the same inputs"],
